@@ -1,4 +1,5 @@
 """C05 Reference counts / GC — structural clause: edge linearity (E-LIN)."""
+import witness
 import ecanon
 import efreelist
 import elin
@@ -26,5 +27,10 @@ def run(ctx):
                 "moving them out of their Cell (replace(.., 0)). E-CANON.swap: level_swap releases edges to an old child "
                 "before unlinking it.")
     efreelist.run(ctx, F)
+    if ctx.tier == "thorough":
+        ctx.explain("E-WITNESS: compile_fail witnesses (with error codes, each with a compiling twin): Edge is not "
+                    "Clone, Borrowed cannot outlive its edge, edges are branded by the manager's invariant 'id and cannot "
+                    "escape the locking closure.")
+        witness.run(ctx)
     ctx.not_decided = ("exactness of counts over histories; the unsafe internals of the managers; "
                        "capacity restoration after gc")
